@@ -105,6 +105,7 @@ def write_replay(f: Finding):
 def conclude(prop, tier, seed, findings, coverage, t0, assumptions=(), max_report=5):
     """Print the verdict lines, write the evidence file, return the exit code."""
     known = load_known()
+    max_report = int(os.environ.get("VERIF_MAX_REPORT", max_report))
     viol, kf = [], {}
     for f in findings:
         k = match_known(f, known)
